@@ -22,7 +22,9 @@ A second, small search uses string keys so that the keyword-argument forms (OMD(
 setdefault(k) without default (which inserts None) are covered without multiplying the main domain.
 """
 import copy as copymod
+import os
 import pickle
+import shutil
 import signal
 import types
 
@@ -446,6 +448,7 @@ class Spec:
         self.config = {'class': clsname, 'keys': list(self.keys), 'values': list(self.values),
                        'value_domain': list(self.domain), 'max_pairs': self.L, 'kwargs_ops': self.kwargs_ops}
         self._cls = None
+        self.scratch = None          # run() sets it: directory of "this operation shape exhausted its CPU budget" marks
         self.menu = self._menu()
         self.news = self._news()
 
@@ -577,14 +580,31 @@ class Spec:
         return {'config': self.config, 'history': [list(o) for o in hist] + [list(op)]}
 
     # ------------------------------------------------------------------------------------------
+    # A transition that exhausts its CPU budget is a violation; so that a looping method does not cost
+    # STEP_CPU_S for each of its ~10^4 transitions, the operation shape is marked (file in the scratch directory,
+    # visible to all workers) and not executed again in this run.
+    def hung(self):
+        try:
+            return set(os.listdir(self.scratch)) if self.scratch else set()
+        except OSError:
+            return set()
+
+    def mark_hung(self, tag):
+        if self.scratch:
+            try:
+                open(os.path.join(self.scratch, tag.replace('/', '_')), 'w').close()
+            except OSError:
+                pass
+
     def expand(self, hist):
         """Read battery once in the (sound) state reached by hist, then every enabled transition out of it."""
         signal.signal(signal.SIGVTALRM, _on_timer)
         out = []
         P0 = self.build(hist)[1]
-        reads = self.guarded_battery(hist)
+        hung = self.hung()
+        reads = self.guarded_battery(hist) if 'read-battery' not in hung else []
         for op in self.menu:
-            if not self.enabled(P0, op):
+            if not self.enabled(P0, op) or opsig(op) in hung:
                 continue
             t = self.guarded_step(hist, op)
             if reads:
@@ -607,6 +627,7 @@ class Spec:
             d, P = self.build(hist)
             self.battery(d, P, bad)
         except Budget:
+            self.mark_hung('read-battery')
             V.append(('C01|read:terminates', case, 'the read battery returns',
                       'no result after %g s of CPU time' % STEP_CPU_S, None, ()))
         finally:
@@ -622,6 +643,7 @@ class Spec:
             key = canon(d2) if ok else None
             return (op, key, label, V)
         except Budget:
+            self.mark_hung(opsig(op))
             return (op, None, (opsig(op), 'no result'),
                     [('C01|op:%s|terminates' % opsig(op), self.case(hist, op), 'the transition returns',
                       'no result after %g s of CPU time' % STEP_CPU_S, None, ())])
@@ -902,8 +924,17 @@ def check_initial(ctx, spec):
 
 def run(ctx):
     parts = []
+    scratch = core.scratch_dir('c01')
+    try:
+        _run(ctx, parts, scratch)
+    finally:
+        shutil.rmtree(scratch, ignore_errors=True)
+
+
+def _run(ctx, parts, scratch):
     for cfg in configs(ctx.tier):
         spec = Spec(*cfg)
+        spec.scratch = scratch
         labels = check_initial(ctx, spec)
         res = histories.explore(spec, ctx)
         for lb in labels:
@@ -925,6 +956,7 @@ def run(ctx):
     menu_ops = sorted({opsig(op) for c in configs(ctx.tier) for op in Spec(*c).menu + Spec(*c).news})
     seen_ok = {k.split(' -> ')[0] for k in cov['op_result_table'] if k.endswith(' -> ok')}
     cov['menu_ops_never_succeeding'] = [o for o in menu_ops if o not in seen_ok]
+    cov['op_shapes_stopped_after_exhausting_cpu_budget'] = sorted(os.listdir(scratch))
     ctx.assumptions += [
         'keys/values are ints, short strings and None with well-behaved __eq__/__hash__',
         'popitem(): removing the last pair, or some present key with all its pairs, are both accepted (DESIGN 5.1)',
